@@ -552,44 +552,9 @@ class Table(Vector):
 		
 		# Handle tuple of strings for multi-column selection
 		if isinstance(key, tuple) and all(isinstance(k, str) for k in key):
-			# Multiple column selection by names
-			selected_cols = []
-			for col_name in key:
-				found = False
-				# Try exact match first
-				for col in self._underlying:
-					if col._name == col_name:
-						selected_cols.append(col.copy())  # Copy to preserve original
-						found = True
-						break
-				
-				# Try sanitized match (case-insensitive)
-				if not found:
-					col_name_lower = col_name.lower()
-					seen = set()
-					for idx, col in enumerate(self._underlying):
-						if col._name is not None:
-							base = _sanitize_user_name(col._name)
-							if base is None:
-								if f'col{idx}_' == col_name_lower:
-									selected_cols.append(col.copy())
-									found = True
-									break
-							else:
-								unique_name = f"{base }__{idx}"
-								seen.add(unique_name)
-								if unique_name == col_name_lower:
-									selected_cols.append(col.copy())
-									found = True
-									break
-						else:
-							if f'col{idx}_' == col_name_lower:
-								selected_cols.append(col.copy())
-								found = True
-								break
-
-								if not found:
-									raise _missing_col_error(col_name)
+			# Multiple column selection by names: each name resolves exactly as
+			# single-name indexing does (a missing name raises SerifKeyError)
+			selected_cols = [self[col_name].copy() for col_name in key]  # Copy to preserve original
 			return Table(selected_cols)
 		
 		if isinstance(key, tuple):
